@@ -110,6 +110,7 @@ Focus == IOEnv.VF_FOCUS
 F(name) == Focus \in {"all", name}
 RunOK(e) == LET x == e.expect IN
    /\ (F("clean") => Clean(e))
+   /\ (F("delay") => ~e.killed)              \* C16: when the delay is over the scan does exit (a run that had to be killed did not)
    /\ (Clean(e) =>
         CASE x.kind = "refuse" -> (F("refuse") => e.exit # 0 /\ Len(e.probes) = 0 /\ Len(e.conns) = 0 /\ Len(e.records) = 0)    \* C02: refused before anything is sent
           [] x.kind \in {"sigint", "packetsigint"} -> (F("clean") => /\ (e.sigintT > 0 => e.exitT <= e.sigintT + ExitBound)                              \* C12
@@ -126,7 +127,7 @@ RunOK(e) == LET x == e.expect IN
                                   /\ (F("source") => SourceOK(e))
                                   /\ (F("delay") => DelayOK(e))
                                   /\ (F("reply") => ReplyOK(e))
-                                  /\ (F("rate") /\ x.rate.n > 0 => SpacingOK(e))
+                                  /\ (F("rate") /\ x.rate.n > 0 /\ e.stallUs <= 20000 => SpacingOK(e))   \* capture times of a held-up harness say nothing
                                   /\ (F("errors") /\ x.nerr >= 0 => Len(e.stderr) = x.nerr))
 VARIABLE l
 Init == l = 1
@@ -135,7 +136,8 @@ TSpec == Init /\ [][Next]_l
 HighWater == TLCSet(1, IF l > TLCGet(1) THEN l ELSE TLCGet(1))
 ASSUME TLCSet(1, 0)
 Which(e) == LET x == e.expect IN
-   IF ~Clean(e) THEN "not clean (panic / killed / incomplete output / capture drops)"
+   IF e.killed /\ F("delay") THEN "did not exit (killed by the harness)"
+   ELSE IF ~Clean(e) THEN "not clean (panic / killed / incomplete output / capture drops)"
    ELSE IF x.kind \in {"packet", "packetbusy"} THEN
         (IF F("coverage") /\ (e.exit # 0 \/ ~CoverageOK(e)) THEN "coverage" ELSE IF F("source") /\ ~SourceOK(e) THEN "source" ELSE IF F("delay") /\ ~DelayOK(e) THEN "exit delay"
          ELSE IF F("reply") /\ ~ReplyOK(e) THEN "reply shape" ELSE IF F("errors") /\ x.nerr >= 0 /\ Len(e.stderr) # x.nerr THEN "errors on stderr" ELSE "rate")
